@@ -143,7 +143,7 @@ def packerOf (fn : String) : List String :=
 def timeWhitelist : List String := [
   "datetime.datetime(1970, 1, 1, tzinfo=datetime.timezone.utc)",
   "datetime.timedelta(milliseconds=X)",
-  "datetime.datetime.fromtimestamp(X, tz=datetime.timezone.utc)",
+  "datetime.timedelta(seconds=X)",
   "X.tzinfo.utcoffset(X)",
   "X.replace(tzinfo=datetime.timezone.utc)",
   "X.timestamp()",
